@@ -42,6 +42,10 @@ ID = 'C19'
 LEAN_MODULES = ['Py65.Props.C19', 'Py65.Props.C19b', 'Py65.Props.C19c', disgen.GENEQ_MODULE, showgen.GENEQ_MODULE,
                 'Py65.Props.C19g']
 NAMESPACES = ['Py65.Props.C19', 'Py65.Props.C19g', disgen.GENEQ_NAMESPACE, showgen.GENEQ_NAMESPACE]
+# library helpers (CPython behaviour modelled in lean/Py65/Model/*Rt*.lean ...) that the generated code of these
+# modules calls, derived by scanning the Lean sources (harness/rtscan.py); validated against CPython on every run
+import rtcheck  # noqa: E402
+RT_HELPERS = rtcheck.helpers_for(LEAN_MODULES)
 LEVEL = 'proof'
 USES_PROLOGUE = True
 USES_GEN = False
